@@ -32,8 +32,9 @@ type conn struct {
 	cl *e2e.Client
 }
 
-// Exec runs one case.
-func Exec(n *e2e.Node, ops []hx.T) (obs any, nontrivial bool, err error) {
+// Exec runs one case.  xtags reports what the run actually exercised (whether the send queue
+// of a stalled connection filled up).
+func Exec(n *e2e.Node, ops []hx.T) (obs any, nontrivial bool, xtags []string, err error) {
 	conns := map[int64]*conn{}
 	var order []int64
 	all := func() []*e2e.Client {
@@ -43,6 +44,13 @@ func Exec(n *e2e.Node, ops []hx.T) (obs any, nontrivial bool, err error) {
 		}
 		return l
 	}
+	type watch struct {
+		stop chan struct{}
+		max  int
+		cap  int
+		done chan struct{}
+	}
+	var watches []*watch
 	defer func() {
 		for _, c := range conns {
 			c.cl.Close()
@@ -51,6 +59,15 @@ func Exec(n *e2e.Node, ops []hx.T) (obs any, nontrivial bool, err error) {
 			err = e
 		}
 	}()
+	netIds := func(targets []int64) []uint32 {
+		ids := []uint32{}
+		for _, t := range targets {
+			if c := conns[t]; c != nil {
+				ids = append(ids, c.cl.NetId)
+			}
+		}
+		return ids
+	}
 	mid := uint64(100)
 	for _, o := range ops {
 		switch o.Name {
@@ -61,14 +78,30 @@ func Exec(n *e2e.Node, ops []hx.T) (obs any, nontrivial bool, err error) {
 			}
 			cl, e := e2e.Dial(n.Addr)
 			if e != nil {
-				return nil, false, e
+				return nil, false, nil, e
 			}
 			if e := n.Sentinel(cl); e != nil {
-				return nil, false, e
+				return nil, false, nil, e
 			}
 			cl.SetSlowRead(time.Duration(o.Int(1)) * time.Microsecond)
 			conns[id] = &conn{id: id, cl: cl}
 			order = append(order, id)
+		case "OStall":
+			c := conns[o.Int(0)]
+			if c == nil {
+				continue
+			}
+			sess, e := n.ClientSessionOf(c.cl.NetId)
+			if e != nil {
+				return nil, false, nil, e
+			}
+			w := &watch{stop: make(chan struct{}), done: make(chan struct{})}
+			watches = append(watches, w)
+			go func() {
+				w.max, w.cap = n.WatchSendQueue(sess, w.stop)
+				close(w.done)
+			}()
+			c.cl.Stall(time.Duration(o.Int(1)) * time.Millisecond)
 		case "OKey":
 			c := conns[o.Int(0)]
 			if c == nil {
@@ -77,10 +110,10 @@ func Exec(n *e2e.Node, ops []hx.T) (obs any, nontrivial bool, err error) {
 			mid++
 			pl, _ := json.Marshal(map[string]any{"T": -1, "Key": keyName(o.Int(1))})
 			if e := c.cl.Request(mid, "gate.h.setkey", pl); e != nil {
-				return nil, false, e
+				return nil, false, nil, e
 			}
 			if c.cl.WaitResponse(mid, e2e.WaitTimeout*4) == nil {
-				return nil, false, fmt.Errorf("c03: setkey unanswered")
+				return nil, false, nil, fmt.Errorf("c03: setkey unanswered")
 			}
 		case "OSend":
 			c := conns[o.Int(0)]
@@ -92,16 +125,26 @@ func Exec(n *e2e.Node, ops []hx.T) (obs any, nontrivial bool, err error) {
 				ty = "ghost"
 			}
 			mid++
-			pl, _ := json.Marshal(map[string]any{"T": o.Int(4), "N1": o.Int(2), "N2": o.Int(3), "Pad": o.Int(5)})
+			pl, _ := json.Marshal(map[string]any{"T": o.Int(4), "N1": o.Int(2), "N2": o.Int(3), "Pad": o.Int(5),
+				"Mode": o.Int(6), "Ids": netIds(o.Ints(7))})
 			if e := c.cl.Request(mid, ty+".h.send", pl); e != nil {
-				return nil, false, e
+				return nil, false, nil, e
 			}
 		default:
-			return nil, false, fmt.Errorf("c03: unknown op %s", o.Name)
+			return nil, false, nil, fmt.Errorf("c03: unknown op %s", o.Name)
 		}
 	}
 	if e := n.Drain(all()); e != nil {
-		return nil, false, e
+		return nil, false, nil, e
+	}
+	for _, w := range watches {
+		close(w.stop)
+		<-w.done
+		if w.cap > 0 && w.max >= w.cap {
+			xtags = append(xtags, "send-queue-filled")
+		} else {
+			xtags = append(xtags, fmt.Sprintf("send-queue-max-%dk", w.max/1000))
+		}
 	}
 	perConn := []any{}
 	sort.Slice(order, func(i, j int) bool { return order[i] < order[j] })
@@ -153,7 +196,7 @@ func Exec(n *e2e.Node, ops []hx.T) (obs any, nontrivial bool, err error) {
 		flush()
 		perConn = append(perConn, hx.Pair{A: id, B: evs})
 	}
-	return perConn, nontrivial, nil
+	return perConn, nontrivial, xtags, nil
 }
 
 func Run(cfg *hx.Config) error {
@@ -163,7 +206,8 @@ func Run(cfg *hx.Config) error {
 	}
 	nbroken := 0
 	emit := func(kind string, ops []hx.T, tags []string) error {
-		obs, nt, err := Exec(n, ops)
+		obs, nt, xt, err := Exec(n, ops)
+		tags = append(append([]string{}, tags...), xt...)
 		note := ""
 		if err != nil {
 			nbroken++
